@@ -2,7 +2,7 @@
 import ast
 
 from .model import AnalysisError, NotConst, fold, node_src, is_self_attr, call_name
-from .paths import Const
+from .paths import MaybeV, Const
 from .report import walk_no_nested
 
 LEVEL = "other"
@@ -24,6 +24,18 @@ EXEMPT_OPTIONS = {
     },
     "HashClient": {"ignore_exc": "failures must reach the failover logic; re-implemented in _safely_run_func (C07/C13)", "server": "one client per server"},
 }
+
+
+def _dropped_option(cinit, o, v):
+    """An option that is forwarded only when a filter lets it through (MaybeV): None if leaving it out is the same as
+    passing it - the filter is `<x> is not None` and the inner constructor's own default is None - else the text that
+    says when the option is lost."""
+    import re
+
+    p_ = cinit.param(o)
+    if re.fullmatch(r"\w+ is not None", v.why or "") and (p_ is None or (p_.has_default and isinstance(p_.default, ast.Constant) and p_.default.value is None)):
+        return None
+    return "when `%s` holds for its value: with any other value (0, False, an empty prefix, ...) the option is left out and the inner client falls back to its own default, so it is configured differently from a Client given the same option" % (v.why or "the filter")
 
 
 # the deprecated pair may reach the inner clients inside the `serde` they are given
@@ -191,6 +203,12 @@ def run(chk):
             if v == "<not passed>" and "**" in kw:
                 r3.undecided("PooledClient:option-not-propagated:%s" % o, "the clients are constructed with a `**mapping` whose content the analysis lost")
                 break
+            if isinstance(v, MaybeV):
+                dropped = _dropped_option(cinit, o, v)
+                if dropped is not None:
+                    msg = "the clients PooledClient creates are given `%s` only %s" % (o, dropped)
+                    break
+                v = v.v
             if v == "<not passed>":
                 msg = "the clients PooledClient creates are not given `%s`: the option is accepted by PooledClient and silently ignored" % o
             elif isinstance(v, pooled_an.P) and v.name == o:
@@ -231,6 +249,12 @@ def run(chk):
                 if v == "<not passed>" and "**" in kw:
                     r3.undecided("%s:option-not-propagated:%s" % (cname, o), "the per-server clients are constructed with a `**mapping` whose content the analysis lost")
                     break
+                if isinstance(v, MaybeV):
+                    dropped = _dropped_option(cinit, o, v)
+                    if dropped is not None:
+                        msg = "the per-server clients are given `%s` only %s" % (o, dropped)
+                        break
+                    v = v.v
                 if v == "<not passed>":
                     msg = "the per-server clients are not given `%s`: the option is accepted by %s and never reaches them" % (o, cname)
                 elif isinstance(v, pooled_an.P) and v.name == o:
@@ -252,6 +276,8 @@ def run(chk):
                     r3.fail("%s:unknown-option:%s" % (cname, k), "the per-server clients are constructed with `%s`, which Client.__init__ does not accept" % k, fn=hinit, node=hinit.node)
             # failures must reach the failover logic: the per-server clients are never told to swallow them
             v = kw.get("ignore_exc", None)
+            if type(v).__name__ == "MaybeV" and v.v == Const(False):
+                v = v.v  # passed as False or left to Client's default False: the same
             if v is None and "**" in kw:
                 r3.undecided("%s:ignore_exc-forwarded" % cname, "the per-server clients are constructed with a `**mapping` whose content the analysis lost")
                 continue
@@ -279,10 +305,12 @@ def run(chk):
     r4.expect(ok, "__getattr__ -> lambda *a, **k: self._retry(name, self._client.<name>, *a, **k)", "RetryingClient.__getattr__:forwarding", "RetryingClient.__getattr__ does not forward name/method/arguments intact: %s" % why, fn=ga, node=ga.node)
     rt = prog.method(rc, "_retry")
     calls = [c for c in walk_no_nested(rt.node) if isinstance(c, ast.Call) and isinstance(c.func, ast.Name) and c.func.id == "func"]
-    okc = len(calls) == 1 and len(calls[0].args) == 1 and isinstance(calls[0].args[0], ast.Starred) and len(calls[0].keywords) == 1 and calls[0].keywords[0].arg is None
-    r4.expect(okc, "_retry calls func(*args, **kwargs) once", "RetryingClient._retry:call", "_retry does not call func(*args, **kwargs) exactly once per attempt with the caller's arguments", fn=rt, node=rt.node)
-    if okc:
-        c = calls[0]
+    va = [p_.name for p_ in rt.params if p_.kind == "vararg"]
+    kw = [p_.name for p_ in rt.params if p_.kind == "kwarg"]
+    # every call site of the delegate passes exactly the caller's *args and **kwargs (how many times it runs is C17's)
+    okc = bool(calls) and len(va) == 1 and len(kw) == 1 and all(len(c.args) == 1 and isinstance(c.args[0], ast.Starred) and isinstance(c.args[0].value, ast.Name) and c.args[0].value.id == va[0] and len(c.keywords) == 1 and c.keywords[0].arg is None and isinstance(c.keywords[0].value, ast.Name) and c.keywords[0].value.id == kw[0] for c in calls)
+    r4.expect(okc, "_retry calls func(*args, **kwargs)", "RetryingClient._retry:call", "_retry does not call func(*args, **kwargs) with exactly the caller's arguments at every call site", fn=rt, node=rt.node)
+    for c in calls if okc else ():
         p = getattr(c, "_parent", None)
         okr = isinstance(p, ast.Return) or (isinstance(p, ast.Assign) and isinstance(p.targets[0], ast.Name) and any(isinstance(r, ast.Return) and isinstance(r.value, ast.Name) and r.value.id == p.targets[0].id for r in walk_no_nested(rt.node)))
         r4.expect(okr, "_retry returns the delegate's value itself", "RetryingClient._retry:result-modified", "_retry does not return func's result unmodified", fn=rt, node=c)
